@@ -1,7 +1,8 @@
 """Implementation side of the C10 correspondence check.  Run under /venv with the repo on PYTHONPATH.
 
 stdin : one JSON case per line   {"m": method, "args": [ARG...]}
-        ARG  := {"p": SURF} | {"call": method, "args": [ARG...]} | {"ax": SURF} | {"d": [[id, SURF], ...]}
+        ARG  := {"p": SURF} | {"call": method, "args": [ARG...]} | {"ax": SURF} | {"d": [[id, SURF], ...]} | {"v": n}
+        argv[1] (optional): Gen/PropLib.index.json (owner class of every method, symbol ids)
         SURF := ["ev",n] ["sv",n] ["sym",n] ["imp",a,b] ["app",a,b] ["ex",x,a] ["mu",x,a]
                 ["mv",id,ef,sf,pos,neg,holes] ["esub",p,x,q] ["ssub",p,x,q]
                 ["neg",a] ["and",a,b] ["or",a,b] ["equiv",a,b] ["bot"] ["top"]      (notation nodes)
@@ -25,6 +26,7 @@ from proof_generation.proved import Proved
 from proof_generation.tautology import Tautology
 
 sys.setrecursionlimit(200000)
+SYMS = {}        # Symbol name -> id (Gen/PropLib.index.json `symbols`); default s<k> -> k
 
 
 def build(s):
@@ -34,7 +36,8 @@ def build(s):
     if k == 'sv':
         return SVar(s[1])
     if k == 'sym':
-        return Symbol(f's{s[1]}')
+        inv = {v_: n_ for n_, v_ in SYMS.items()}
+        return Symbol(inv.get(s[1], f's{s[1]}'))
     if k == 'imp':
         return Implies(build(s[1]), build(s[2]))
     if k == 'app':
@@ -73,7 +76,7 @@ def enc(p, out):
     elif isinstance(p, SVar):
         out += [1, p.name]
     elif isinstance(p, Symbol):
-        out += [2, int(p.name[1:])]
+        out += [2, SYMS[p.name] if p.name in SYMS else int(p.name[1:])]
     elif isinstance(p, Implies):
         out.append(3)
         enc(p.left, out)
@@ -150,8 +153,9 @@ class Recording(StatefulInterpreter):
         return super().exists_quantifier()
 
     def exists_generalization(self, proved, var):
-        self.trace.append('G')
-        return super().exists_generalization(proved, var)
+        r = super().exists_generalization(proved, var)
+        self.trace.append(f'G:{var.name}')
+        return r
 
 
 def make_instance():
@@ -179,6 +183,33 @@ def main():
         return
     print(header)
     base = list(T._axioms)
+    # the other rule libraries (index: method name -> class); their declared axioms join the replay memory
+    owner = {}
+    others = {}
+    if len(sys.argv) > 1:
+        idx = json.load(open(sys.argv[1]))
+        SYMS.update(idx.get('symbols', {}))
+        for m in idx['methods']:
+            owner[m['name']] = m['cls']
+        try:
+            from proof_generation.proofs.substitution import Substitution
+            others['Substitution'] = Substitution()
+        except Exception as e:  # noqa: BLE001
+            others['Substitution'] = e
+        try:
+            from proof_generation.proofs.small_theory import SmallTheory
+            others['SmallTheory'] = SmallTheory()
+        except Exception as e:  # noqa: BLE001
+            others['SmallTheory'] = e
+
+    def method(name):
+        inst = others.get(owner.get(name))
+        if inst is None:
+            return getattr(T, name)
+        if isinstance(inst, Exception):
+            raise inst
+        return getattr(inst, name)
+    extra_axioms = [a for o in others.values() if not isinstance(o, Exception) for a in o._axioms]
     for line in sys.stdin:
         line = line.strip()
         if not line:
@@ -191,14 +222,16 @@ def main():
                 return build(a['p'])
             if 'd' in a:
                 return {int(k): build(x) for k, x in a['d']}
+            if 'v' in a:
+                return EVar(int(a['v']))
             if 'ax' in a:
                 p = build(a['ax'])
                 T.add_axiom(p)
                 return T.load_axiom(p)
-            return getattr(T, a['call'])(*[arg(x) for x in a['args']])
+            return method(a['call'])(*[arg(x) for x in a['args']])
 
         try:
-            th = getattr(T, case['m'])(*[arg(x) for x in case['args']])
+            th = method(case['m'])(*[arg(x) for x in case['args']])
         except Exception as e:  # noqa: BLE001
             print('RAISE', type(e).__name__)
             continue
@@ -209,7 +242,7 @@ def main():
             continue
         try:
             it = Recording(ExecutionPhase.Proof)
-            it.memory = [Proved(a) for a in T._axioms]
+            it.memory = [Proved(a) for a in list(T._axioms) + extra_axioms]
             pr = th(it)
             st_ok = int(len(it.stack) == 1 and it.stack[0] == pr)
             tr = ''.join(t + ' ' for t in it.trace)
